@@ -61,8 +61,12 @@ def repeatable(fn):
     return "ret" not in keep or same(keep["ret"], b["ret"])
 
 
-with open(sys.argv[2]) as f, open(sys.argv[3], "w") as out:
-    for line in f:
+START = int(sys.argv[4]) if len(sys.argv) > 4 else 0
+
+with open(sys.argv[2]) as f, open(sys.argv[3], "a") as out:
+    for lineno, line in enumerate(f):
+        if lineno < START:
+            continue
         c = json.loads(line)
         rec = {"i": c["i"], "tag": c["tag"], "case": c, "decode_ok": True}
         if c["entry"] == "apply":
@@ -115,3 +119,4 @@ with open(sys.argv[2]) as f, open(sys.argv[3], "w") as out:
         if "ret" in rec["outcome"] and not isinstance(rec["outcome"]["ret"], str):
             rec["decode_ok"] = False
         out.write(json.dumps(rec) + "\n")
+        out.flush()
